@@ -51,6 +51,8 @@ HOLDING_HARNESSES = [
     holding("holding-1", {"maxheld": 1}, {"maxheld": 1}),
     holding("holding-2", {"maxheld": 2, "fixrates": 1}, {"maxheld": 2}),
 ]
+APIREADS = {"id": "api-reads", "func": "VerifAPIReads", "pkg": "srv", "pkgname": "srv", "load": ["./srv"],
+             "params": {"quick": {}, "thorough": {}}, "must_cover": ["asked"], "max_witness_replays": 6}
 MULTIFETCH = {"id": "multifetch", "func": "VerifMultiFetch", "pkg": NODE, "pkgname": "node", "load": ["./node"],
              "params": {"quick": {"maxentries": 3}, "thorough": {"maxentries": 4}},
              "must_cover": ["all-fetched", "entry-request-failed", "eblock-request-failed"], "max_witness_replays": 4,
@@ -104,6 +106,7 @@ PROPS = {
         "harnesses": [
             {"id": "history-queries", "func": "VerifHistory", "pkg": PEG, "pkgname": "pegnet", "load": ["./node/pegnet"],
              "params": {"quick": {}, "thorough": {}}, "must_cover": ["some-actions", "no-actions"], "max_witness_replays": 8},
+            APIREADS,
         ] + TXBLOCK_HARNESSES[:1] + HOLDING_HARNESSES[:1] + BATCH_HARNESSES[:1] + [BATCH_HARNESSES[3]] + [
             {"id": "rewards", "func": "VerifRewards", "pkg": NODE, "pkgname": "node", "load": ["./node"],
              "params": {"quick": {"maxwinners": 2}, "thorough": {"maxwinners": 3}}, "must_cover": ["winners"], "max_witness_replays": 2},
@@ -123,8 +126,9 @@ PROPS = {
         "harnesses": [
             {"id": "api-isolation", "func": "VerifAPIIsolation", "pkg": "srv", "pkgname": "srv", "load": ["./srv"],
              "params": {"quick": {}, "thorough": {}}, "must_cover": ["ran"], "race": True, "max_witness_replays": 3},
+            APIREADS,
         ],
-        "bounds": {"quick": "two goroutine bodies: the real getGlobalRichList handler (API) and the GetPegNetRateAverages call of the holding pass (sync) on one *Pegnetd; lockset analysis over all accesses to its fields and the maps published through them, on every solver-feasible path (rates, balances symbolic); handler answered before and during an open block transaction with pending writes",
+        "bounds": {"quick": "six read handlers (balances, transaction status, rates, bank, issuance, rich list), one request each on a ledger with symbolic content, answered before and while a block transaction holds pending writes on the rows they read; 9 kinds of history/balance read followed by a block commit; one abandoned (cancelled-context) request; two goroutine bodies: the real getGlobalRichList handler (API) and the GetPegNetRateAverages call of the holding pass (sync) on one *Pegnetd; lockset analysis over all accesses to its fields and the maps published through them, on every solver-feasible path (rates, balances symbolic); handler answered before and during an open block transaction with pending writes",
                    "thorough": "same"},
         "assumptions": ["Eraser-style lockset discipline: conflicting accesses from different goroutines need a common mutex (the code uses no other synchronisation); confirmed natively by the Go race detector running both bodies concurrently",
                         "two goroutines; getRichList shares the same call into the cache as getGlobalRichList; the word-sized read of Sync.Synced by the API (single writer) is not part of this harness; the HTTP stack is outside (DESIGN §9)",
